@@ -6,6 +6,7 @@
 mod conv;
 mod r#gen;
 mod lin;
+mod text;
 mod lp;
 mod simplex;
 mod bounds;
@@ -132,6 +133,13 @@ fn main() {
                 for ev in evs {
                     writeln!(out, "{}", ev).unwrap();
                 }
+            }
+        }
+        // parse --cases F : real parser on generated expression texts (C09)
+        "parse" => {
+            let cases = read_cases(&arg(&args, "--cases").expect("--cases"));
+            for c in &cases {
+                writeln!(out, "{}", text::parse_event(c)).unwrap();
             }
         }
         _ => {
